@@ -5,6 +5,7 @@ from itertools import islice, chain
 from typing import Iterable, Any, Sequence, Mapping, Optional, Union, Iterator
 
 from coba.random import CobaRandom
+from coba.exceptions import CobaException
 from coba.encodings import Encoder
 from coba.utilities import peek_first, try_else
 from coba.primitives import Sparse, Dense, Filter
@@ -409,25 +410,45 @@ class Cache(Filter[Iterable[Any], Iterable[Any]]):
     def _filter(self, items: Iterable[Any]) -> Iterable[Any]:
         n_slice = self._n_slice
 
-        if self._iter is None and self._cache is None:
+        mine = self._iter is None and self._cache is None
+
+        if mine:
             self._iter  = iter(items)
             self._cache = []
 
-        if self._cache is not None and self._iter is None:
-            yield from self._cache
-            return
+        #Every reader keeps its own position in the buffer. While it is suspended another reader - of this environment or, when
+        #there is a second cache further down a pipeline, of another environment that shares this filter - can have added to the
+        #buffer or have read the source to its end. This reader then hands on what was added rather than skip it.
+        cache,pos = self._cache,0
 
-        yield from self._cache
-        items = self._iter
-        while current := self._next_slice(n_slice):
-            self._cache.extend(current)
-            yield from current
-        self._iter = None
+        while True:
+            if self._cache is not cache:
+                #The buffer was reset while we were suspended (another reader's source failed or it was interrupted).
+                #We carry on at our position in the new buffer, which we start from our own items if nobody else has.
+                #(When it was our items that were being read as the source they are spent and we have to give up.)
+                if self._cache is None:
+                    if mine: raise CobaException("The source of a cache failed while another reader was in the middle of it.")
+                    mine        = True
+                    self._iter  = iter(items)
+                    self._cache = []
+                cache = self._cache
+
+            if pos < len(cache):
+                added = cache[pos:]
+                pos  += len(added)
+                yield from added
+            elif self._iter is None:
+                return #the source has been read to its end (by this reader or by another one)
+            elif not self._next_slice(n_slice):
+                self._iter = None
+                return
 
     def _next_slice(self, n_slice:int) -> Sequence[Any]:
         source = self._iter
         try:
-            return list(islice(source,n_slice))
+            current = list(islice(source,n_slice))
+            self._cache.extend(current)
+            return current
         except: #not just Exception: a KeyboardInterrupt in the middle of a read ends the iterator too
             #What has been cached so far is not the complete sequence and the failed iterator can't
             #be continued. We forget both so the next read starts over rather than replaying (and
